@@ -537,6 +537,53 @@ func run(r *chk.Run) {
 		}
 		all.merge(st)
 	})
+	// every value of every DECIMAL(p,s) with p <= 4 (and p = 5 in the thorough
+	// tier): rare coincidences of the packed bytes (a value whose bytes OR to
+	// the sign bit, a group that is a power of ten) are met by enumeration
+	{
+		st := newStats()
+		maxP := 4
+		if r.Thorough() {
+			maxP = 5
+		}
+		var e int64
+		for p := 1; p <= maxP; p++ {
+			lim := 1
+			for i := 0; i < p; i++ {
+				lim *= 10
+			}
+			for sc := 0; sc <= p; sc++ {
+				pr := newPair(p, sc)
+				for v := 0; v < lim; v++ {
+					e += both(r, pr, fmt.Sprintf("%0*d", p, v), st)
+				}
+			}
+		}
+		// powers of ten and their neighbours in every full 9-digit group position of wider columns
+		for _, ps := range [][2]int{{20, 2}, {28, 0}, {65, 30}, {30, 12}, {19, 9}, {38, 10}} {
+			pr := newPair(ps[0], ps[1])
+			p := ps[0]
+			for pos := 0; pos < p; pos++ {
+				for _, lead := range []byte{'0', '5'} {
+					for _, d := range []byte{'1', '9'} {
+						digits := []byte(strings.Repeat("0", p))
+						digits[0] = lead
+						digits[pos] = d
+						e += both(r, pr, string(digits), st)
+						// ... and the number just below it (all nines behind the position)
+						for k := pos + 1; k < p; k++ {
+							digits[k] = '9'
+						}
+						digits[pos] = '0'
+						e += both(r, pr, string(digits), st)
+					}
+				}
+			}
+		}
+		evals.Add(e)
+		all.merge(st)
+		r.Set("small_precisions", fmt.Sprintf("every value of every DECIMAL(p,s), p <= %d, both signs; single digits 1 / 9 (and the all-nines number below) at every position of 6 wider columns with and without a leading digit", maxP))
+	}
 	reportAll(r, all)
 
 	sample(r, "zero", 10, 0, false, rep("0", 10), "")
